@@ -5,5 +5,813 @@ From Attrs Require Import Core.Attr Core.Init Core.InitProofs Core.InitProps C12
 Open Scope string_scope.
 Open Scope list_scope.
 
+(** ** Small facts *)
+
+Lemma read_raise k i n e : read k i n = Raise e -> e = EAttributeError.
+Proof.
+  unfold read. destruct (is_slot k n); destruct (lookup _ _); intros H; inversion H; reflexivity.
+Qed.
+
+Lemma lookup_app n (l1 l2 : alist) :
+  lookup n (l1 ++ l2) = match lookup n l1 with Some v => Some v | None => lookup n l2 end.
+Proof.
+  induction l1 as [|[m w] r IH]; cbn; [reflexivity|]. destruct (String.eqb n m); auto.
+Qed.
+
+Lemma lookup_none_mem n (l : alist) : lookup n l = None <-> mem_str n (map fst l) = false.
+Proof.
+  induction l as [|[m w] r IH]; cbn; [tauto|].
+  destruct (String.eqb n m); cbn; [split; discriminate | exact IH].
+Qed.
+
+Lemma mem_str_app x l1 l2 : mem_str x (l1 ++ l2) = mem_str x l1 || mem_str x l2.
+Proof. induction l1 as [|y r IH]; cbn; [reflexivity|]. now rewrite IH, orb_assoc. Qed.
+
+Lemma mem_str_false x l : mem_str x l = false <-> ~ In x l.
+Proof.
+  split.
+  - intros H Hin. apply mem_str_In in Hin. congruence.
+  - intros H. destruct (mem_str x l) eqn:E; [|reflexivity]. apply mem_str_In in E. contradiction.
+Qed.
+
+(** ** What [evolve] passes to the class *)
+
+Definition cur (k : cls_spec) (i : inst) (n : string) : val :=
+  match read k i n with Ok v => v | Raise _ => VNothing end.
+
+(** The keyword arguments [evolve] adds: the current value of every init field whose
+    alias the caller did not give, under its alias, in field order. *)
+Definition carried (k : cls_spec) (i : inst) (l : list attribute) (keys : list string) : alist :=
+  flat_map (fun a => if a_init a && negb (mem_str (alias_of a) keys)
+                     then [(alias_of a, cur k i (a_name a))] else []) l.
+
+Definition evolve_kw (k : cls_spec) (i : inst) (changes : alist) : alist :=
+  changes ++ carried k i (k_attrs k) (map fst changes).
+
+Definition init_aliases (l : list attribute) : list string := map alias_of (filter a_init l).
+
+(** Assumption K8 of the whole development: no two init fields share an alias. *)
+Definition aliases_unique (k : cls_spec) : Prop := NoDup (init_aliases (k_attrs k)).
+
+(** Every init field the caller does not replace can be read off the original. *)
+Definition readable (k : cls_spec) (i : inst) (keys : list string) : Prop :=
+  forall a, In a (k_attrs k) -> a_init a = true -> ~ In (alias_of a) keys ->
+            exists v, read k i (a_name a) = Ok v.
+
+(** Every key of the change set is the alias of an init field. *)
+Definition changes_known (k : cls_spec) (changes : alist) : Prop :=
+  forall n, In n (map fst changes) ->
+            exists a, In a (k_attrs k) /\ a_init a = true /\ alias_of a = n.
+
+Lemma carried_ext k i l ks1 ks2 :
+  (forall b, In b l -> a_init b = true -> mem_str (alias_of b) ks1 = mem_str (alias_of b) ks2) ->
+  carried k i l ks1 = carried k i l ks2.
+Proof.
+  induction l as [|b r IH]; intros H; [reflexivity|]. unfold carried in *. cbn [flat_map].
+  rewrite IH by (intros c Hc; apply H; now right). f_equal.
+  destruct (a_init b) eqn:Ei; [|reflexivity]. cbn [andb]. now rewrite (H b (or_introl eq_refl) Ei).
+Qed.
+
+Lemma init_alias_in l b : In b l -> a_init b = true -> In (alias_of b) (init_aliases l).
+Proof. intros Hb Hi. unfold init_aliases. apply in_map. apply filter_In. auto. Qed.
+
+Lemma init_aliases_cons a r :
+  init_aliases (a :: r) = if a_init a then alias_of a :: init_aliases r else init_aliases r.
+Proof. unfold init_aliases. cbn. destruct (a_init a); reflexivity. Qed.
+
+Lemma collect_ok k i : forall l changes,
+  NoDup (init_aliases l) ->
+  (forall a, In a l -> a_init a = true -> ~ In (alias_of a) (map fst changes) ->
+             exists v, read k i (a_name a) = Ok v) ->
+  collect k i l changes = Ok (changes ++ carried k i l (map fst changes)).
+Proof.
+  induction l as [|a r IH]; intros changes ND Hr.
+  - cbn. now rewrite app_nil_r.
+  - rewrite init_aliases_cons in ND. cbn [collect]. unfold carried. cbn [flat_map]. fold (carried k i r (map fst changes)).
+    destruct (a_init a) eqn:Ei; cbn [negb andb].
+    + inversion ND as [|? ? Hnotin ND']; subst.
+      destruct (mem_str (alias_of a) (map fst changes)) eqn:M; cbn [negb app].
+      * apply IH; [exact ND'|]. intros b Hb. apply Hr. now right.
+      * assert (Hx : ~ In (alias_of a) (map fst changes)) by now apply mem_str_false.
+        destruct (Hr a (or_introl eq_refl) Ei Hx) as [v Hv].
+        rewrite Hv. rewrite IH; [|exact ND'|].
+        -- rewrite <- app_assoc. cbn [app]. unfold cur at 1. rewrite Hv. do 3 f_equal.
+           apply carried_ext. intros b Hb Hbi. rewrite map_app, mem_str_app. cbn.
+           destruct (String.eqb (alias_of b) (alias_of a)) eqn:E; [|now rewrite orb_false_r].
+           apply String.eqb_eq in E. exfalso. apply Hnotin. rewrite <- E. now apply init_alias_in.
+        -- intros b Hb Hbi Hnin. apply Hr; [now right | exact Hbi |]. intro Hin. apply Hnin.
+           rewrite map_app. apply in_or_app. now left.
+    + cbn [app]. apply IH; [exact ND|]. intros b Hb. apply Hr. now right.
+Qed.
+
+Lemma lookup_carried k i keys : forall l a,
+  NoDup (init_aliases l) -> In a l -> a_init a = true -> mem_str (alias_of a) keys = false ->
+  lookup (alias_of a) (carried k i l keys) = Some (cur k i (a_name a)).
+Proof.
+  induction l as [|b r IH]; intros a ND Hin Hi M; [destruct Hin|].
+  rewrite init_aliases_cons in ND. unfold carried. cbn [flat_map]. fold (carried k i r keys).
+  rewrite lookup_app. destruct Hin as [->|Hin].
+  - rewrite Hi, M. cbn. now rewrite String.eqb_refl.
+  - destruct (a_init b) eqn:Eb; cbn [andb].
+    + inversion ND as [|? ? Hnotin ND']; subst.
+      assert (Hne : String.eqb (alias_of a) (alias_of b) = false).
+      { destruct (String.eqb (alias_of a) (alias_of b)) eqn:E; [|reflexivity].
+        apply String.eqb_eq in E. exfalso. apply Hnotin. rewrite <- E. now apply init_alias_in. }
+      destruct (negb (mem_str (alias_of b) keys)); cbn; [rewrite Hne|]; now apply IH.
+    + cbn. now apply IH.
+Qed.
+
+Lemma carried_keys k i keys l n :
+  In n (map fst (carried k i l keys)) ->
+  exists a, In a l /\ a_init a = true /\ alias_of a = n.
+Proof.
+  unfold carried. intros H. apply in_map_iff in H as ([m v] & Hm & Hin). cbn in Hm. subst m.
+  apply in_flat_map in Hin as (a & Ha & Hin).
+  destruct (a_init a) eqn:Ei; cbn [andb] in Hin; [|destruct Hin].
+  destruct (negb (mem_str (alias_of a) keys)); [|destruct Hin].
+  destruct Hin as [E|[]]. inversion E; subst. eauto.
+Qed.
+
+(** The argument the initializer receives for an init field. *)
+Definition evolve_arg (k : cls_spec) (i : inst) (changes : alist) (a : attribute) : val :=
+  match lookup (alias_of a) changes with
+  | Some v => v
+  | None => cur k i (a_name a)
+  end.
+
+Lemma evolve_kw_lookup k i changes a :
+  aliases_unique k -> In a (k_attrs k) -> a_init a = true ->
+  lookup (alias_of a) (evolve_kw k i changes) = Some (evolve_arg k i changes a).
+Proof.
+  intros U Ha Hi. unfold evolve_kw, evolve_arg. rewrite lookup_app.
+  destruct (lookup (alias_of a) changes) eqn:E; [reflexivity|].
+  apply lookup_none_mem in E. now apply lookup_carried.
+Qed.
+
+(** ** The keyword-only call binds *)
+
+Definition all_names (sc : init_script) : list string :=
+  map fst (pos_params sc) ++ map fst (kw_params sc).
+
+Lemma all_names_spec k sc n :
+  make_init_script k = GenOk sc ->
+  (In n (all_names sc) <-> exists a, In a (k_attrs k) /\ a_init a = true /\ alias_of a = n).
+Proof.
+  intros G. destruct (init_signature_l k sc G) as [P Kw]. unfold all_names. rewrite P, Kw.
+  rewrite !map_map. cbn [fst]. split.
+  - intros H. apply in_app_or in H as [H|H]; apply in_map_iff in H as (a & Hn & Hf);
+      apply filter_In in Hf as [Hin Hc]; apply andb_true_iff in Hc as [Hi _]; eauto.
+  - intros (a & Hin & Hi & Hn). apply in_or_app.
+    destruct (a_kw_only a) eqn:Ek; [right|left]; apply in_map_iff; exists a; (split; [exact Hn|]);
+      apply filter_In; (split; [exact Hin|]); now rewrite Hi, Ek.
+Qed.
+
+Lemma bind_pos_nil ps : bind_pos ps [] = Some ([], ps).
+Proof. destruct ps; reflexivity. Qed.
+
+Lemma bind_rest_all kw : forall ps,
+  (forall p, In p ps -> exists v, lookup (fst p) kw = Some v) ->
+  bind_rest ps kw = Some (map (fun p => (fst p, env_get kw (fst p))) ps).
+Proof.
+  induction ps as [|p ps IH]; intros H; [reflexivity|]. cbn [bind_rest map].
+  destruct (H p (or_introl eq_refl)) as [v Hv]. rewrite Hv.
+  rewrite IH by (intros p' Hp'; apply H; now right).
+  replace (env_get kw (fst p)) with v by (unfold env_get; now rewrite Hv). reflexivity.
+Qed.
+
+Definition bound_env (sc : init_script) (kw : alist) : env :=
+  map (fun p => (fst p, env_get kw (fst p))) (pos_params sc ++ kw_params sc).
+
+Lemma bind_call_kw sc (kw : alist) :
+  (forall n, In n (map fst kw) -> In n (all_names sc)) ->
+  (forall p, In p (pos_params sc ++ kw_params sc) -> exists v, lookup (fst p) kw = Some v) ->
+  bind_call sc [] kw = Bound (bound_env sc kw).
+Proof.
+  intros Hk Hp. unfold bind_call. rewrite bind_pos_nil.
+  assert (F : forallb (fun p : string * val => mem_str (fst p) (all_names sc)) kw = true).
+  { apply forallb_forall. intros p Hin. apply mem_str_In. apply Hk. now apply in_map. }
+  unfold all_names in F. rewrite F. cbn [negb].
+  assert (E : existsb (fun p : string * val => mem_str (fst p) (map fst (@nil (string * val)))) kw = false).
+  { clear. induction kw as [|p r IH]; cbn; auto. }
+  rewrite E. cbn [app]. rewrite (bind_rest_all kw _ Hp). reflexivity.
+Qed.
+
+Lemma bind_call_unknown sc (kw : alist) n :
+  In n (map fst kw) -> ~ In n (all_names sc) -> bind_call sc [] kw = BindTypeError.
+Proof.
+  intros Hin Hn. unfold bind_call. rewrite bind_pos_nil.
+  destruct (forallb (fun p : string * val =>
+                       mem_str (fst p) (map fst (pos_params sc) ++ map fst (kw_params sc))) kw) eqn:F;
+    [|reflexivity].
+  exfalso. rewrite forallb_forall in F. apply in_map_iff in Hin as (p & Hp & Hin).
+  specialize (F p Hin). apply mem_str_In in F. rewrite Hp in F. exact (Hn F).
+Qed.
+
+Lemma lookup_bound_env sc kw n :
+  In n (all_names sc) -> lookup n (bound_env sc kw) = Some (env_get kw n).
+Proof.
+  unfold bound_env, all_names. rewrite <- map_app.
+  induction (pos_params sc ++ kw_params sc) as [|p ps IH]; cbn; [tauto|].
+  intros [H|H].
+  - subst n. now rewrite String.eqb_refl.
+  - destruct (String.eqb n (fst p)) eqn:E; [apply String.eqb_eq in E; now subst | now apply IH].
+Qed.
+
+(** ** evolve: the main statement *)
+
+Definition evolve_env (sc : init_script) (k : cls_spec) (i : inst) (changes : alist) : env :=
+  bound_env sc (evolve_kw k i changes).
+
+Lemma evolve_runs_init k f von i changes :
+  aliases_unique k -> readable k i (map fst changes) ->
+  evolve k f von i changes = (i, EvoInit (run_init k f von [] (evolve_kw k i changes))).
+Proof.
+  intros U R. unfold evolve. rewrite (collect_ok k i (k_attrs k) changes U R). reflexivity.
+Qed.
+
+Lemma evolve_binds k sc i changes :
+  make_init_script k = GenOk sc -> aliases_unique k -> changes_known k changes ->
+  bind_call sc [] (evolve_kw k i changes) = Bound (evolve_env sc k i changes).
+Proof.
+  intros G U Ck. apply bind_call_kw.
+  - intros n Hn. apply (all_names_spec k sc n G). unfold evolve_kw in Hn. rewrite map_app in Hn.
+    apply in_app_or in Hn as [Hn|Hn]; [now apply Ck | eapply carried_keys; eauto].
+  - intros p Hp.
+    assert (Hn : In (fst p) (all_names sc)).
+    { unfold all_names. rewrite <- map_app. now apply in_map. }
+    apply (all_names_spec k sc _ G) in Hn as (a & Ha & Hi & Hal). rewrite <- Hal.
+    eexists. now apply evolve_kw_lookup.
+Qed.
+
+Lemma evolve_env_lookup k sc i changes a :
+  make_init_script k = GenOk sc -> aliases_unique k -> In a (k_attrs k) -> a_init a = true ->
+  lookup (alias_of a) (evolve_env sc k i changes) = Some (evolve_arg k i changes a).
+Proof.
+  intros G U Ha Hi. unfold evolve_env. rewrite lookup_bound_env.
+  - unfold env_get. now rewrite evolve_kw_lookup.
+  - apply (all_names_spec k sc _ G). eauto.
+Qed.
+
+Theorem evolve_spec_l k sc von i changes :
+  wf k -> make_init_script k = GenOk sc -> aliases_unique k ->
+  readable k i (map fst changes) -> changes_known k changes ->
+  let en := evolve_env sc k i changes in
+  (forall a, In a (k_attrs k) -> a_init a = true ->
+             lookup (alias_of a) en = Some (evolve_arg k i changes a)) /\
+  exists new,
+    evolve k no_fault von i changes = (i, EvoInit (InitDone new (expected_trace k von en))) /\
+    (forall a, In a (k_attrs k) -> participates a = true ->
+               read k new (a_name a) = Ok (spec_value a en)) /\
+    (forall a, In a (k_attrs k) -> participates a = false ->
+               read k new (a_name a) = Raise EAttributeError) /\
+    (forall m, ~ In m (map a_name (k_attrs k)) -> m <> HASH_CACHE ->
+               read k new m = Raise EAttributeError) /\
+    (k_cache_hash k = true -> read k new HASH_CACHE = Ok VNone) /\
+    i_args new = expected_args k en.
+Proof.
+  intros W G U R Ck en. split.
+  - intros a Ha Hi. now apply evolve_env_lookup.
+  - pose proof (evolve_binds k sc i changes G U Ck) as B.
+    destruct (run_init_nofault k sc von [] _ _ W G B) as (new & Hrun & H1 & H2 & H3 & H4 & H5).
+    exists new. rewrite (evolve_runs_init k no_fault von i changes U R). rewrite Hrun.
+    repeat split; assumption.
+Qed.
+
+(** What a field holds given the argument the initializer received for it. *)
+Definition field_from_arg (a : attribute) (v : val) : val :=
+  converted a (match a_default a with
+               | DFactory fn ts => if is_nothing v then VApp fn (if ts then [VSelf] else []) else v
+               | _ => v
+               end).
+
+(** What an init=False field is re-derived to. *)
+Definition rederived (a : attribute) : val :=
+  converted a (match a_default a with
+               | DFactory fn ts => VApp fn (if ts then [VSelf] else [])
+               | _ => VDefault (a_name a)
+               end).
+
+Lemma spec_value_init a en v :
+  a_init a = true -> lookup (alias_of a) en = Some v -> spec_value a en = field_from_arg a v.
+Proof.
+  intros Hi Hl. unfold spec_value, raw_value, field_from_arg, env_get. rewrite Hi, Hl.
+  destruct (a_default a); reflexivity.
+Qed.
+
+Lemma spec_value_noninit a en : a_init a = false -> spec_value a en = rederived a.
+Proof. intros Hi. unfold spec_value, raw_value, rederived. rewrite Hi. destruct (a_default a); reflexivity. Qed.
+
+Lemma field_from_arg_plain a v : is_nothing v = false -> field_from_arg a v = converted a v.
+Proof. intros H. unfold field_from_arg. destruct (a_default a); try reflexivity. now rewrite H. Qed.
+
+(** The field-by-field reading of [evolve_spec_l]. *)
+Theorem evolve_fields_l k sc von i changes :
+  wf k -> make_init_script k = GenOk sc -> aliases_unique k ->
+  readable k i (map fst changes) -> changes_known k changes ->
+  exists new t,
+    evolve k no_fault von i changes = (i, EvoInit (InitDone new t)) /\
+    (* changed init field: the new value, through the converter *)
+    (forall a v, In a (k_attrs k) -> a_init a = true -> lookup (alias_of a) changes = Some v ->
+       read k new (a_name a) = Ok (field_from_arg a v) /\
+       (is_nothing v = false -> read k new (a_name a) = Ok (converted a v))) /\
+    (* unchanged init field: the original's CURRENT value, through the converter AGAIN *)
+    (forall a old, In a (k_attrs k) -> a_init a = true -> lookup (alias_of a) changes = None ->
+       read k i (a_name a) = Ok old ->
+       read k new (a_name a) = Ok (field_from_arg a old) /\
+       (is_nothing old = false -> read k new (a_name a) = Ok (converted a old))) /\
+    (* init=False field with a default: re-derived, whatever the original held *)
+    (forall a, In a (k_attrs k) -> a_init a = false -> has_default a = true ->
+       read k new (a_name a) = Ok (rederived a)) /\
+    (* init=False field without default: unset, as after any construction *)
+    (forall a, In a (k_attrs k) -> a_init a = false -> has_default a = false ->
+       read k new (a_name a) = Raise EAttributeError) /\
+    (* the hash cache is that of a fresh instance *)
+    (k_cache_hash k = true -> read k new HASH_CACHE = Ok VNone).
+Proof.
+  intros W G U R Ck.
+  destruct (evolve_spec_l k sc von i changes W G U R Ck) as (Hen & new & Hev & H1 & H2 & _ & H4 & _).
+  exists new, (expected_trace k von (evolve_env sc k i changes)). split; [exact Hev|].
+  assert (Hinit : forall a v, In a (k_attrs k) -> a_init a = true -> evolve_arg k i changes a = v ->
+            read k new (a_name a) = Ok (field_from_arg a v) /\
+            (is_nothing v = false -> read k new (a_name a) = Ok (converted a v))).
+  { intros a v Ha Hi Hv.
+    assert (P : participates a = true) by (unfold participates; now rewrite Hi).
+    rewrite (H1 a Ha P). rewrite (spec_value_init a _ v Hi); [|rewrite (Hen a Ha Hi); now rewrite Hv].
+    split; [reflexivity|]. intros Hn. now rewrite field_from_arg_plain. }
+  split; [|split; [|split; [|split]]].
+  - intros a v Ha Hi Hl. apply Hinit; auto. unfold evolve_arg. now rewrite Hl.
+  - intros a old Ha Hi Hl Hr. apply Hinit; auto. unfold evolve_arg, cur. now rewrite Hl, Hr.
+  - intros a Ha Hi Hd.
+    assert (P : participates a = true) by (unfold participates; now rewrite Hd, orb_true_r).
+    rewrite (H1 a Ha P). now rewrite spec_value_noninit.
+  - intros a Ha Hi Hd. apply H2; auto. unfold participates. now rewrite Hi, Hd.
+  - exact H4.
+Qed.
+
+(** An original that came out of the initializer is readable, and its unchanged fields
+    are converted a second time. *)
+Lemma constructed_readable k sc von0 pos0 kw0 en0 i t0 keys :
+  wf k -> make_init_script k = GenOk sc -> bind_call sc pos0 kw0 = Bound en0 ->
+  run_init k no_fault von0 pos0 kw0 = InitDone i t0 ->
+  readable k i keys /\
+  forall a, In a (k_attrs k) -> a_init a = true -> read k i (a_name a) = Ok (spec_value a en0).
+Proof.
+  intros W G B Hrun.
+  destruct (run_init_nofault k sc von0 pos0 kw0 en0 W G B) as (i' & Hrun' & H1 & _).
+  rewrite Hrun in Hrun'. inversion Hrun'; subst i'.
+  assert (H : forall a, In a (k_attrs k) -> a_init a = true -> read k i (a_name a) = Ok (spec_value a en0)).
+  { intros a Ha Hi. apply H1; auto. unfold participates. now rewrite Hi. }
+  split; [|exact H]. intros a Ha Hi _. eauto.
+Qed.
+
+Theorem evolve_reconverts_l k sc von0 pos0 kw0 en0 i t0 von changes :
+  wf k -> make_init_script k = GenOk sc -> aliases_unique k ->
+  bind_call sc pos0 kw0 = Bound en0 -> run_init k no_fault von0 pos0 kw0 = InitDone i t0 ->
+  changes_known k changes ->
+  exists new t,
+    evolve k no_fault von i changes = (i, EvoInit (InitDone new t)) /\
+    forall a, In a (k_attrs k) -> a_init a = true -> lookup (alias_of a) changes = None ->
+      read k new (a_name a) = Ok (field_from_arg a (converted a (raw_value a en0))).
+Proof.
+  intros W G U B Hrun Ck.
+  destruct (constructed_readable k sc von0 pos0 kw0 en0 i t0 (map fst changes) W G B Hrun) as [R Hval].
+  destruct (evolve_fields_l k sc von i changes W G U R Ck) as (new & t & Hev & _ & Hun & _).
+  exists new, t. split; [exact Hev|]. intros a Ha Hi Hl.
+  destruct (Hun a _ Ha Hi Hl (Hval a Ha Hi)) as [H _]. exact H.
+Qed.
+
+(** ** evolve: rejected calls *)
+
+Theorem evolve_unknown_typeerror_l k sc f von i changes n :
+  make_init_script k = GenOk sc -> aliases_unique k -> readable k i (map fst changes) ->
+  In n (map fst changes) ->
+  (forall a, In a (k_attrs k) -> a_init a = true -> alias_of a <> n) ->
+  evolve k f von i changes = (i, EvoInit InitTypeError).
+Proof.
+  intros G U R Hin Hno. rewrite (evolve_runs_init k f von i changes U R). do 2 f_equal.
+  apply (init_typeerror_l k sc); [exact G|]. apply (bind_call_unknown sc _ n).
+  - unfold evolve_kw. rewrite map_app. apply in_or_app. now left.
+  - intros H. apply (all_names_spec k sc n G) in H as (a & Ha & Hi & Hal). exact (Hno a Ha Hi Hal).
+Qed.
+
+(** A field is addressed by its alias: its (different) name is rejected unless it happens
+    to be another init field's alias. *)
+Corollary evolve_uses_alias_not_name_l k sc f von i changes a :
+  make_init_script k = GenOk sc -> aliases_unique k -> readable k i (map fst changes) ->
+  In a (k_attrs k) -> In (a_name a) (map fst changes) ->
+  (forall b, In b (k_attrs k) -> a_init b = true -> alias_of b <> a_name a) ->
+  evolve k f von i changes = (i, EvoInit InitTypeError).
+Proof. intros G U R _ Hin Hno. eapply evolve_unknown_typeerror_l; eauto. Qed.
+
+Lemma collect_raise k i : forall l changes e, collect k i l changes = Raise e -> e = EAttributeError.
+Proof.
+  induction l as [|a r IH]; intros changes e H; cbn in H; [discriminate|].
+  destruct (negb (a_init a)); [eauto|].
+  destruct (mem_str (alias_of a) (map fst changes)); [eauto|].
+  destruct (read k i (a_name a)) eqn:E; [eauto|]. inversion H; subst. eapply read_raise; eauto.
+Qed.
+
+Lemma collect_unreadable k i a e0 : forall l changes,
+  NoDup (init_aliases l) -> In a l -> a_init a = true -> ~ In (alias_of a) (map fst changes) ->
+  read k i (a_name a) = Raise e0 ->
+  exists e, collect k i l changes = Raise e.
+Proof.
+  induction l as [|b r IH]; intros changes ND Hin Hi Hk Hr; [destruct Hin|].
+  rewrite init_aliases_cons in ND. cbn [collect]. destruct Hin as [->|Hin].
+  - rewrite Hi. cbn [negb]. apply mem_str_false in Hk. rewrite Hk, Hr. eauto.
+  - destruct (a_init b) eqn:Eb; cbn [negb].
+    + inversion ND as [|? ? Hnotin ND']; subst.
+      destruct (mem_str (alias_of b) (map fst changes)); [now apply IH|].
+      destruct (read k i (a_name b)) as [v|e] eqn:E; [|eauto].
+      apply IH; auto. rewrite map_app. intros H. apply in_app_or in H as [H|H]; [exact (Hk H)|].
+      cbn in H. destruct H as [H|[]]. apply Hnotin. rewrite H. now apply init_alias_in.
+    + now apply IH.
+Qed.
+
+Theorem evolve_unset_attribute_error_l k f von i changes a e0 :
+  aliases_unique k -> In a (k_attrs k) -> a_init a = true -> ~ In (alias_of a) (map fst changes) ->
+  read k i (a_name a) = Raise e0 ->
+  evolve k f von i changes = (i, EvoReadError EAttributeError).
+Proof.
+  intros U Ha Hi Hk Hr. unfold evolve.
+  destruct (collect_unreadable k i a e0 (k_attrs k) changes U Ha Hi Hk Hr) as [e He].
+  rewrite He. now rewrite (collect_raise _ _ _ _ _ He).
+Qed.
+
 Lemma evolve_original_untouched_l k f von i changes : fst (evolve k f von i changes) = i.
 Proof. unfold evolve. destruct (collect k i (k_attrs k) changes); reflexivity. Qed.
+
+(** ** copy.copy *)
+
+Lemma getstate_ok k i : forall names,
+  (forall n, In n names -> exists v, read k i n = Ok v) ->
+  getstate k i names = Ok (map (fun n => (n, cur k i n)) names).
+Proof.
+  induction names as [|n r IH]; intros H; [reflexivity|]. cbn [getstate map].
+  destruct (H n (or_introl eq_refl)) as [v Hv]. rewrite Hv.
+  rewrite IH by (intros m Hm; apply H; now right).
+  replace (cur k i n) with v by (unfold cur; now rewrite Hv). reflexivity.
+Qed.
+
+Lemma getstate_unreadable k i n e0 : forall names,
+  In n names -> read k i n = Raise e0 -> getstate k i names = Raise EAttributeError.
+Proof.
+  induction names as [|m r IH]; intros Hin Hr; [destruct Hin|]. cbn [getstate].
+  destruct (read k i m) as [v|e] eqn:E.
+  - destruct Hin as [->|Hin]; [congruence|]. now rewrite (IH Hin Hr).
+  - now rewrite (read_raise _ _ _ _ E).
+Qed.
+
+Lemma lookup_map_self (g : string -> val) : forall names n,
+  In n names -> lookup n (map (fun m => (m, g m)) names) = Some (g n).
+Proof.
+  induction names as [|m r IH]; intros n Hin; [destruct Hin|]. cbn.
+  destruct (String.eqb n m) eqn:E; [apply String.eqb_eq in E; now subst|].
+  destruct Hin as [->|Hin]; [now rewrite String.eqb_refl in E | now apply IH].
+Qed.
+
+Lemma setstate_ok k (g : string -> val) st : forall names new,
+  NoDup names -> (forall n, In n names -> storable k n) ->
+  (forall n, In n names -> lookup n st = Some (g n)) ->
+  exists new', setstate k new names st = Ok new' /\
+    (forall n, In n names -> read k new' n = Ok (g n)) /\
+    (forall m, ~ In m names -> read k new' m = read k new m).
+Proof.
+  induction names as [|n r IH]; intros new ND Hs Hl.
+  - exists new. cbn. repeat split; tauto.
+  - inversion ND as [|? ? Hnotin ND']; subst. cbn [setstate]. rewrite (Hl n (or_introl eq_refl)).
+    destruct (obj_setattr_ok k new n (g n) (Hs n (or_introl eq_refl))) as (n1 & -> & R1 & R2 & _).
+    destruct (IH n1 ND' (fun m Hm => Hs m (or_intror Hm)) (fun m Hm => Hl m (or_intror Hm)))
+      as (new' & E & Q1 & Q2).
+    exists new'. split; [exact E|]. split.
+    + intros m [->|Hm]; [|now apply Q1]. rewrite Q2; [exact R1 | exact Hnotin].
+    + intros m Hm. rewrite Q2 by (intro; apply Hm; now right). apply R2. intro; apply Hm; now left.
+Qed.
+
+Definition fields_readable (k : cls_spec) (i : inst) : Prop :=
+  forall a, In a (k_attrs k) -> exists v, read k i (a_name a) = Ok v.
+
+Lemma copy_getstate_spec k inh i :
+  wf k -> has_getstate k inh = true -> fields_readable k i ->
+  exists c, shallow_copy k inh i = Ok c /\
+    (forall a, In a (k_attrs k) -> read k c (a_name a) = read k i (a_name a)) /\
+    (k_cache_hash k = true -> read k c HASH_CACHE = Ok VNone) /\
+    (forall m, ~ In m (map a_name (k_attrs k)) -> m <> HASH_CACHE -> read k c m = Raise EAttributeError).
+Proof.
+  intros W Hg Hr. unfold shallow_copy. rewrite Hg.
+  assert (Hnames : forall n, In n (map a_name (k_attrs k)) -> exists v, read k i n = Ok v).
+  { intros n Hn. apply in_map_iff in Hn as (a & <- & Ha). now apply Hr. }
+  rewrite (getstate_ok k i _ Hnames).
+  destruct (setstate_ok k (cur k i) (map (fun n => (n, cur k i n)) (map a_name (k_attrs k)))
+              (map a_name (k_attrs k)) empty_inst (wf_names k W))
+    as (n1 & -> & Q1 & Q2).
+  { intros n Hn. apply in_map_iff in Hn as (a & <- & Ha). now apply attr_name_storable. }
+  { intros n Hn. now apply lookup_map_self. }
+  assert (Hf : forall a, In a (k_attrs k) -> read k n1 (a_name a) = read k i (a_name a)).
+  { intros a Ha. rewrite Q1 by now apply in_map. unfold cur. destruct (Hr a Ha) as [v ->]. reflexivity. }
+  destruct (k_cache_hash k) eqn:Ch.
+  - destruct (obj_setattr_ok k n1 HASH_CACHE VNone (cache_storable k W Ch)) as (c & -> & R1 & R2 & _).
+    exists c. split; [reflexivity|]. repeat split.
+    + intros a Ha. rewrite R2; [now apply Hf|]. intros E. apply (wf_cache_name k W). rewrite <- E. now apply in_map.
+    + intros _. exact R1.
+    + intros m Hm Hc. rewrite R2 by exact Hc. rewrite Q2 by exact Hm. apply read_empty.
+  - exists n1. split; [reflexivity|]. repeat split; auto; [discriminate|].
+    intros m Hm _. rewrite Q2 by exact Hm. apply read_empty.
+Qed.
+
+Lemma copy_dict_spec k inh i :
+  has_getstate k inh = false ->
+  exists c, shallow_copy k inh i = Ok c /\ forall m, read k c m = read k i m.
+Proof. intros Hg. unfold shallow_copy. rewrite Hg. eexists. split; reflexivity. Qed.
+
+Lemma copy_unreadable k inh i a e0 :
+  has_getstate k inh = true -> In a (k_attrs k) -> read k i (a_name a) = Raise e0 ->
+  shallow_copy k inh i = Raise EAttributeError.
+Proof.
+  intros Hg Ha Hr. unfold shallow_copy. rewrite Hg.
+  rewrite (getstate_unreadable k i (a_name a) e0); [reflexivity | now apply in_map | exact Hr].
+Qed.
+
+(** ** assoc *)
+
+Lemma field_name_found k n : In n (map a_name (k_attrs k)) -> fields_getattr_found k n = true.
+Proof. intros H. unfold fields_getattr_found, is_field_name. apply mem_str_In in H. now rewrite H. Qed.
+
+Lemma field_name_storable k n : wf k -> In n (map a_name (k_attrs k)) -> storable k n.
+Proof. intros W H. apply in_map_iff in H as (a & <- & Ha). now apply attr_name_storable. Qed.
+
+Lemma assoc_loop_fields k : forall changes new,
+  wf k -> NoDup (map fst changes) ->
+  (forall n, In n (map fst changes) -> In n (map a_name (k_attrs k))) ->
+  exists new', assoc_loop k new changes = AssocDone new' /\
+    forall m, read k new' m = match lookup m changes with Some v => Ok v | None => read k new m end.
+Proof.
+  induction changes as [|[n v] r IH]; intros new W ND Hk.
+  - exists new. split; reflexivity.
+  - cbn [map fst] in ND. inversion ND as [|? ? Hnotin ND']; subst. cbn [assoc_loop].
+    rewrite field_name_found by (apply Hk; now left).
+    destruct (obj_setattr_ok k new n v) as (n1 & -> & R1 & R2 & _).
+    { apply field_name_storable; [exact W | apply Hk; now left]. }
+    destruct (IH n1 W ND' (fun m Hm => Hk m (or_intror Hm))) as (new' & E & Q).
+    exists new'. split; [exact E|]. intros m. rewrite Q. cbn [lookup].
+    destruct (String.eqb m n) eqn:Emn.
+    + apply String.eqb_eq in Emn. subst m.
+      assert (L : lookup n r = None) by (apply lookup_none_mem; now apply mem_str_false).
+      now rewrite L.
+    + destruct (lookup m r); [reflexivity|]. apply R2. intros ->. now rewrite String.eqb_refl in Emn.
+Qed.
+
+Lemma assoc_loop_prefix k : forall pre new rest,
+  wf k -> (forall n, In n (map fst pre) -> In n (map a_name (k_attrs k))) ->
+  exists new', assoc_loop k new (pre ++ rest) = assoc_loop k new' rest.
+Proof.
+  induction pre as [|[n v] r IH]; intros new rest W Hk.
+  - exists new. reflexivity.
+  - cbn [app assoc_loop]. rewrite field_name_found by (apply Hk; now left).
+    destruct (obj_setattr_ok k new n v) as (n1 & -> & _).
+    { apply field_name_storable; [exact W | apply Hk; now left]. }
+    apply IH; [exact W|]. intros m Hm. apply Hk. now right.
+Qed.
+
+(** The instance can be copied: with a generated [__getstate__] every field must be set. *)
+Definition copyable (k : cls_spec) (inh : bool) (i : inst) : Prop :=
+  has_getstate k inh = true -> fields_readable k i.
+
+Theorem assoc_spec_l k inh i changes :
+  wf k -> copyable k inh i -> NoDup (map fst changes) ->
+  (forall n, In n (map fst changes) -> In n (map a_name (k_attrs k))) ->
+  exists new,
+    assoc k inh i changes = (i, AssocDone new) /\
+    (* named fields hold the RAW new value, every other field what the original holds *)
+    (forall a, In a (k_attrs k) ->
+       read k new (a_name a) = match lookup (a_name a) changes with
+                               | Some v => Ok v
+                               | None => read k i (a_name a)
+                               end) /\
+    (* the hash cache: reset by the generated __setstate__, CARRIED OVER by the dict copy *)
+    (has_getstate k inh = true -> k_cache_hash k = true -> read k new HASH_CACHE = Ok VNone) /\
+    (has_getstate k inh = false -> read k new HASH_CACHE = read k i HASH_CACHE).
+Proof.
+  intros W Hc ND Hk. unfold assoc.
+  assert (Lc : lookup HASH_CACHE changes = None).
+  { apply lookup_none_mem. apply mem_str_false. intros H. apply (wf_cache_name k W). now apply Hk. }
+  destruct (has_getstate k inh) eqn:Hg.
+  - destruct (copy_getstate_spec k inh i W Hg (Hc Hg)) as (c & -> & C1 & C2 & _).
+    destruct (assoc_loop_fields k changes c W ND Hk) as (new & -> & Q).
+    exists new. split; [reflexivity|]. repeat split.
+    + intros a Ha. rewrite Q. destruct (lookup (a_name a) changes); [reflexivity | now apply C1].
+    + intros _ Ch. rewrite Q, Lc. now apply C2.
+    + discriminate.
+  - destruct (copy_dict_spec k inh i Hg) as (c & -> & C).
+    destruct (assoc_loop_fields k changes c W ND Hk) as (new & -> & Q).
+    exists new. split; [reflexivity|]. repeat split.
+    + intros a Ha. rewrite Q. destruct (lookup (a_name a) changes); [reflexivity | apply C].
+    + discriminate.
+    + intros _. rewrite Q, Lc. apply C.
+Qed.
+
+Theorem assoc_unknown_raises_l k inh i pre n v post :
+  wf k -> copyable k inh i ->
+  (forall m, In m (map fst pre) -> In m (map a_name (k_attrs k))) ->
+  fields_getattr_found k n = false ->
+  assoc k inh i (pre ++ (n, v) :: post) = (i, AssocNotFound).
+Proof.
+  intros W Hc Hk Hn. unfold assoc.
+  assert (Hcopy : exists c, shallow_copy k inh i = Ok c).
+  { destruct (has_getstate k inh) eqn:Hg.
+    - destruct (copy_getstate_spec k inh i W Hg (Hc Hg)) as (c & E & _). eauto.
+    - destruct (copy_dict_spec k inh i Hg) as (c & E & _). eauto. }
+  destruct Hcopy as [c ->].
+  destruct (assoc_loop_prefix k pre c ((n, v) :: post) W Hk) as (new' & ->).
+  cbn [assoc_loop]. now rewrite Hn.
+Qed.
+
+Theorem assoc_unset_attribute_error_l k inh i changes a e0 :
+  has_getstate k inh = true -> In a (k_attrs k) -> read k i (a_name a) = Raise e0 ->
+  assoc k inh i changes = (i, AssocRaised EAttributeError).
+Proof. intros Hg Ha Hr. unfold assoc. now rewrite (copy_unreadable k inh i a e0 Hg Ha Hr). Qed.
+
+Lemma assoc_original_untouched_l k inh i changes : fst (assoc k inh i changes) = i.
+Proof. unfold assoc. destruct (shallow_copy k inh i); reflexivity. Qed.
+
+(** ** Hash consistency of the result of [assoc] *)
+
+Lemma read_all_ext k a b : forall ns,
+  (forall n, In n ns -> read k a n = read k b n) -> read_all k a ns = read_all k b ns.
+Proof.
+  induction ns as [|n r IH]; intros H; [reflexivity|]. cbn [read_all].
+  rewrite (H n (or_introl eq_refl)). rewrite IH by (intros m Hm; apply H; now right). reflexivity.
+Qed.
+
+Lemma read_all_total k i : forall ns,
+  (forall n, In n ns -> exists v, read k i n = Ok v) -> exists vs, read_all k i ns = Ok vs.
+Proof.
+  induction ns as [|n r IH]; intros H; [eexists; reflexivity|]. cbn [read_all].
+  destruct (H n (or_introl eq_refl)) as [v ->].
+  destruct IH as [vs ->]; [intros m Hm; apply H; now right|]. eauto.
+Qed.
+
+Definition hash_names (k : cls_spec) : list string :=
+  map a_name (filter hash_participates (k_attrs k)).
+
+Lemma hash_names_fields k n : In n (hash_names k) -> exists a, In a (k_attrs k) /\ a_name a = n.
+Proof.
+  unfold hash_names. intros H. apply in_map_iff in H as (a & Hn & Hf). apply filter_In in Hf as [Ha _]. eauto.
+Qed.
+
+(** With a generated [__getstate__]/[__setstate__] the copy's cache is empty: consistent. *)
+Theorem assoc_getstate_cache_consistent_l k inh i changes :
+  wf k -> has_getstate k inh = true -> fields_readable k i -> k_cache_hash k = true ->
+  NoDup (map fst changes) ->
+  (forall n, In n (map fst changes) -> In n (map a_name (k_attrs k))) ->
+  exists new, assoc k inh i changes = (i, AssocDone new) /\ cache_consistent k new = true.
+Proof.
+  intros W Hg Hr Ch ND Hk.
+  destruct (assoc_spec_l k inh i changes W (fun _ => Hr) ND Hk) as (new & Ha & F & C & _).
+  exists new. split; [exact Ha|]. unfold cache_consistent. rewrite (C Hg Ch).
+  unfold hash_code. fold (hash_names k).
+  destruct (read_all_total k new (hash_names k)) as [vs ->]; [|reflexivity].
+  intros n Hn. apply hash_names_fields in Hn as (a & Ha' & <-). rewrite (F a Ha').
+  destruct (lookup (a_name a) changes); [eauto | now apply Hr].
+Qed.
+
+(** Pure dict chain: consistent when no replaced field takes part in the hash. *)
+Theorem assoc_dict_cache_guarded_l k inh i changes :
+  wf k -> has_getstate k inh = false -> cache_consistent k i = true ->
+  NoDup (map fst changes) ->
+  (forall n, In n (map fst changes) -> In n (map a_name (k_attrs k))) ->
+  (forall n, In n (map fst changes) -> ~ In n (hash_names k)) ->
+  exists new, assoc k inh i changes = (i, AssocDone new) /\ cache_consistent k new = true.
+Proof.
+  intros W Hg Hc ND Hk Hnp.
+  assert (Cp : copyable k inh i) by (intros H; congruence).
+  destruct (assoc_spec_l k inh i changes W Cp ND Hk) as (new & Ha & F & _ & C).
+  exists new. split; [exact Ha|]. unfold cache_consistent in *. rewrite (C Hg).
+  assert (E : hash_code k new = hash_code k i).
+  { unfold hash_code. fold (hash_names k). rewrite (read_all_ext k new i); [reflexivity|].
+    intros n Hn. pose proof Hn as Hn'. apply hash_names_fields in Hn as (a & Ha' & <-). rewrite (F a Ha').
+    destruct (lookup (a_name a) changes) eqn:L; [|reflexivity].
+    exfalso. apply (Hnp (a_name a)); [|exact Hn'].
+    destruct (mem_str (a_name a) (map fst changes)) eqn:M; [now apply mem_str_In|].
+    apply lookup_none_mem in M. congruence. }
+  now rewrite E.
+Qed.
+
+(** ** Witnesses on the faithful model: the two recorded deviations of [assoc] *)
+
+Definition k3 : cls_spec :=
+  {| k_attrs := [example_attr "x" DNothing CNone None true false;
+                 example_attr "y" DValue CNone None true false];
+     k_frozen := false; k_slots := false; k_cache_hash := true; k_is_exc := false;
+     k_pre_init := false; k_pre_init_has_args := false; k_post_init := false;
+     k_on_setattr := COsNone; k_mro_slots := []; k_has_dict := true |}.
+
+Lemma k3_wf : wf k3.
+Proof.
+  split.
+  - apply (NoDup_count_occ' string_dec). intros x Hx. cbn in Hx. destruct Hx as [<-|[<-|[]]]; reflexivity.
+  - reflexivity.
+  - cbn. intros [H|[H|[]]]; discriminate H.
+Qed.
+
+Definition k3_original : inst :=
+  match run_init k3 no_fault true [VTok 1] [] with
+  | InitDone i _ => fst (do_hash k3 i)          (* constructed, then hash() taken *)
+  | _ => empty_inst
+  end.
+
+(** K3a: dict class, cache_hash, hash computed, a hash field replaced: the copy keeps the
+    original's hash code although its fields hash differently. *)
+Theorem assoc_stale_cache_refuted_l :
+  exists k inh i changes new,
+    wf k /\ k_cache_hash k = true /\ has_getstate k inh = false /\
+    fields_readable k i /\ cache_consistent k i = true /\
+    NoDup (map fst changes) /\
+    (forall n, In n (map fst changes) -> In n (hash_names k)) /\
+    assoc k inh i changes = (i, AssocDone new) /\
+    read k new HASH_CACHE = read k i HASH_CACHE /\
+    cache_consistent k new = false.
+Proof.
+  exists k3, false, k3_original, [("x", VTok 2)].
+  eexists. split; [exact k3_wf|]. repeat split.
+  - intros a [<-|[<-|[]]]; vm_compute; eauto.
+  - repeat constructor. intros [].
+  - intros n [<-|[]]. vm_compute. auto.
+Qed.
+
+(** K3b: a name that is no field but an attribute of every tuple is accepted. *)
+Theorem assoc_count_index_refuted_l :
+  exists k inh i n v new,
+    wf k /\ ~ In n (map a_name (k_attrs k)) /\ (n = "count" \/ n = "index") /\
+    assoc k inh i [(n, v)] = (i, AssocDone new) /\ read k new n = Ok v.
+Proof.
+  exists k3, false, k3_original, "count", (VTok 5). eexists.
+  split; [exact k3_wf|]. split; [|split; [now left | split; reflexivity]].
+  cbn. intros [H|[H|[]]]; discriminate H.
+Qed.
+
+(** ** Non-vacuity: [InitProps.example_spec] (frozen dict class with a hash cache, a private
+    field with a converter, a factory field with a Converter(takes_self, takes_field), an
+    init=False field with a default, a keyword-only field) meets every hypothesis. *)
+
+Definition ex_original : inst :=
+  match run_init example_spec no_fault true [VTok 1] [("w", VTok 2)] with
+  | InitDone i _ => i
+  | _ => empty_inst
+  end.
+
+Lemma ex_aliases_unique : aliases_unique example_spec.
+Proof.
+  unfold aliases_unique. apply (NoDup_count_occ' string_dec). intros x Hx. cbn in Hx.
+  destruct Hx as [<-|[<-|[<-|[]]]]; reflexivity.
+Qed.
+
+Lemma ex_readable keys : readable example_spec ex_original keys.
+Proof. intros a [<-|[<-|[<-|[<-|[]]]]] Hi _; try discriminate Hi; vm_compute; eauto. Qed.
+
+Lemma ex_changes_known : changes_known example_spec [("x", VTok 9)].
+Proof.
+  intros n [<-|[]]. eexists. split; [left; reflexivity|]. split; reflexivity.
+Qed.
+
+Example evolve_spec_nonvacuous :
+  wf example_spec /\ (exists sc, make_init_script example_spec = GenOk sc) /\
+  aliases_unique example_spec /\ readable example_spec ex_original ["x"] /\
+  changes_known example_spec [("x", VTok 9)] /\
+  match evolve example_spec no_fault true ex_original [("x", VTok 9)] with
+  | (i, EvoInit (InitDone new t)) =>
+      i = ex_original /\
+      read example_spec new "_x" = Ok (VApp "cx" [VTok 9]) /\
+      (* y: carried over and converted a second time *)
+      read example_spec new "y" =
+        Ok (VApp "cy" [VApp "cy" [VApp "fy" [VSelf]; VSelf; VAttr "y"]; VSelf; VAttr "y"]) /\
+      read example_spec new "z" = Ok (VDefault "z") /\
+      read example_spec new "w" = Ok (VTok 2) /\
+      read example_spec new HASH_CACHE = Ok VNone /\ List.length t = 6
+  | _ => False
+  end.
+Proof.
+  split; [exact example_wf|]. split; [eexists; vm_compute; reflexivity|].
+  split; [exact ex_aliases_unique|]. split; [apply ex_readable|]. split; [exact ex_changes_known|].
+  vm_compute. repeat split.
+Qed.
+
+(** The private name is rejected, the alias accepted; an init=False field is rejected. *)
+Example evolve_alias_example :
+  snd (evolve example_spec no_fault true ex_original [("_x", VTok 9)]) = EvoInit InitTypeError /\
+  snd (evolve example_spec no_fault true ex_original [("z", VTok 9)]) = EvoInit InitTypeError /\
+  (exists new t, snd (evolve example_spec no_fault true ex_original [("x", VTok 9)])
+                 = EvoInit (InitDone new t)).
+Proof. repeat split; vm_compute; eauto. Qed.
+
+Example assoc_spec_nonvacuous :
+  wf k3 /\ copyable k3 false k3_original /\
+  match assoc k3 false k3_original [("y", VTok 7)] with
+  | (i, AssocDone new) =>
+      i = k3_original /\ read k3 new "x" = Ok (VTok 1) /\ read k3 new "y" = Ok (VTok 7)
+  | _ => False
+  end /\
+  assoc k3 false k3_original [("y", VTok 7); ("nope", VTok 8)] = (k3_original, AssocNotFound).
+Proof.
+  split; [exact k3_wf|]. split; [intros H; discriminate H|]. vm_compute. repeat split.
+Qed.
